@@ -19,6 +19,7 @@ NumRowOK(r) == /\ NumOK(ParsePInt(r.a, 10), r.p10c, r.p10) /\ NumOK(ParsePInt(r.
                \* project's own test pins (BstrTest.ToPint expects 4 for "abc" in base 16): pinned, not judged
                /\ (r.p10c = 0 => r.p10used = Used(ParsePInt(r.a, 10).used, Len(r.a))) /\ (r.p16c = 0 => r.p16used = Used(ParsePInt(r.a, 16).used, Len(r.a)))
                /\ NumOK(ContentLength(r.a), r.clc, r.cl) /\ NumOK(ChunkLength(r.a), r.chc, r.ch)
+               /\ NumOK(PIntWs(r.a, 10), r.w10c, r.w10) /\ NumOK(PIntWs(r.a, 16), r.w16c, r.w16) /\ r.status = StatusOf(r.a)
 RowOK == LET r == Rows[k] IN CASE r.t = "pair" -> PairOK(r) [] r.t = "one" -> OneOK(r) [] r.t = "num" -> NumRowOK(r)
 ASSUME PrintT(<<"CENSUS", Len(Rows), Cardinality({<<Rows[i].t, Rows[i].a, IF Rows[i].t = "pair" THEN Rows[i].b ELSE <<>>>> : i \in 1..Len(Rows)})>>)
 =============================================================================
